@@ -31,7 +31,7 @@ def race_run(seed, millis):
         rc, log = vf.sh(cmd + ["./cmd/c20"], cwd=h, env=vf.GOENV, timeout=1500)
     if rc != 0:
         return {"built": False, "log": log[-1500:]}
-    rc, log = vf.sh([out, "stress", "-seed", str(seed), "-n", str(millis)], env=vf.GOENV, timeout=600)
+    rc, log = vf.sh([out, "stress", "-seed", str(seed), "-n", str(millis), "-out", ""], env=vf.GOENV, timeout=600)
     res = {"built": True, "exit": rc, "races": log.count("WARNING: DATA RACE"), "tail": log[-1200:]}
     for line in log.splitlines():
         if line.startswith("{"):
@@ -55,7 +55,7 @@ def readers_run(seed, rounds, binary):
     import vf
     if not os.path.exists(binary):
         return {"ran": False}
-    rc, log = vf.sh([binary, "readers", "-seed", str(seed), "-n", str(rounds)], env=vf.GOENV, timeout=600)
+    rc, log = vf.sh([binary, "readers", "-seed", str(seed), "-n", str(rounds), "-out", ""], env=vf.GOENV, timeout=600)
     res = {"ran": True, "exit": rc, "races": log.count("WARNING: DATA RACE"), "tail": log[-1500:]}
     for line in log.splitlines():
         if line.startswith("{"):
